@@ -3,15 +3,20 @@
 //! The real `AgentModel` + agent runtime run through `run_agent_with_store` on a recording, fault
 //! injecting `NodePersistence` (`store.rs`). A generated history (commands from 1-4 slow remotes and
 //! handler programs over persistent/transient value and map lanes and stores) is executed up to a cut
-//! point (panic inside store call #n / drop after poll #p / drop after remote frame #f / clean stop /
-//! inactivity timeout / kill at quiescence), then a second incarnation is started on the surviving
-//! store data, every lane is synced by a new remote and every item is read by `on_start` and a probe.
+//! point (panic inside store call #n / drop after poll #p / drop after remote frame #f / clean stop
+//! after op #j / inactivity timeout / kill at quiescence), then a second incarnation is started on the
+//! surviving store data, every lane is synced by a new remote and every item is read by `on_start`
+//! and a probe. Optionally a second history runs on the restarted agent (state restored from the
+//! store + new operations), it is killed at quiescence and a third incarnation is checked.
 //!
-//! Oracles (all invariants over sequence-numbered histories, schedule independent):
-//!  * order        - every event frame of a persistent lane read by a remote at seq t carries a state
-//!                   that a store call recorded strictly before t had handed over (value: `put_value`
-//!                   with that value; map: `update_map`/`remove_map`/`clear_map` for that operation,
-//!                   matched monotonically per remote and key).
+//! Oracles (all invariants over sequence-numbered histories, schedule independent), per incarnation:
+//!  * order        - for every event frame of a persistent lane read by a remote at seq t, the state
+//!                   implied by the store calls recorded strictly before t is at least as new as the
+//!                   frame's state. Value lane: a `put_value` of that value or of a later value of the
+//!                   lane's history was recorded (the state the incarnation started with is implied by
+//!                   the store as it was). Map lane: `update_map` with exactly that entry (or the
+//!                   entry is one the incarnation started with); `remove_map` / `clear_map` for that
+//!                   operation, matched monotonically per remote and key in log order.
 //!  * restart      - after the cut every persistent lane/store equals the fold of the *applied* store
 //!                   operations up to the cut (value: last put; map: update/remove/clear folded),
 //!                   every transient item is at its default, as seen by `on_start` (so `on_start` ran
@@ -103,19 +108,22 @@ fn default_state(it: &ItemDef) -> St {
 enum CutSel {
     /// Panic inside mutating store call number pick(i) of the history (before / after it is applied).
     StoreCall { i: u16, after: bool },
+    /// Mutating store call number pick(i) fails (returns an error, not applied); the history goes on.
+    StoreError { i: u16 },
     /// Drop everything after system poll number pick(i).
     Poll { i: u16 },
     /// Drop everything right after remote frame number pick(i) was read.
     Frame { i: u16 },
-    Stop,
+    /// Clean stop (stop signal, then everything is delivered) after pick(i) of the history's ops.
+    Stop { i: u16 },
     Timeout,
 }
 
 #[derive(Clone, Debug, Serialize, Deserialize)]
 enum CutPlan {
     Sampled(Vec<CutSel>),
-    /// Every store-call cut (both fault modes), every frame cut, a spread of poll cuts, clean stop,
-    /// inactivity timeout.
+    /// Every store-call cut (both fault modes), every frame cut, a clean stop after every op, a spread
+    /// of poll cuts, inactivity timeout.
     All,
 }
 
@@ -125,17 +133,23 @@ struct Case {
     cascade: bool,
     programs: Vec<Vec<Act>>,
     ops: Vec<Op>,
+    /// History run on the second incarnation (empty: the check ends with the first restart).
+    ops2: Vec<Op>,
     plan: CutPlan,
 }
 
-#[derive(Clone, Copy, Debug, PartialEq, Eq)]
+#[derive(Clone, Copy, Debug, PartialEq, Eq, PartialOrd, Ord)]
 enum Cut {
     /// Kill at the end of the history (after the final settle).
     End,
     StoreCall { n: u64, after: bool },
+    /// Store call #n returns an error; the rest of the history is still executed, then everything is
+    /// delivered and the runtime is given time to shut down.
+    StoreError(u64),
     Poll(u64),
     Frame(usize),
-    Stop,
+    /// Clean stop after the first j ops.
+    Stop(usize),
     Timeout,
 }
 
@@ -196,7 +210,20 @@ fn arb_g() -> impl Strategy<Value = G> {
         8 => (any::<u16>(), 0u8..3, 0i32..4).prop_map(|(r, map, k)| G::Upd { r, map, k }),
         3 => (any::<u16>(), 0u8..3, 0i32..4).prop_map(|(r, map, k)| G::Rem { r, map, k }),
         1 => (any::<u16>(), 0u8..3).prop_map(|(r, map)| G::Clr { r, map }),
-        5 => (any::<u16>(), proptest::collection::vec(arb_act(), 1..6)).prop_map(|(r, acts)| G::Prog { r, acts }),
+        5 => (
+            any::<u16>(),
+            proptest::collection::vec(arb_act(), 1..6),
+            // a few programs abort, or stop / fail the agent from inside the handler
+            prop_oneof![56 => Just(None), 2 => Just(Some(Act::Abort)), 1 => Just(Some(Act::StopSelf)), 1 => Just(Some(Act::Fail))],
+            any::<u16>(),
+        )
+            .prop_map(|(r, mut acts, end, at)| {
+                if let Some(e) = end {
+                    let i = pick_index(at, acts.len() + 1);
+                    acts.insert(i, e);
+                }
+                G::Prog { r, acts }
+            }),
         1 => any::<u16>().prop_map(|r| G::Drop { r }),
         16 => arb_sched_op().prop_map(G::Sched),
     ]
@@ -205,9 +232,10 @@ fn arb_g() -> impl Strategy<Value = G> {
 fn arb_cutsel() -> impl Strategy<Value = CutSel> {
     prop_oneof![
         6 => (any::<u16>(), any::<bool>()).prop_map(|(i, after)| CutSel::StoreCall { i, after }),
+        2 => any::<u16>().prop_map(|i| CutSel::StoreError { i }),
         3 => any::<u16>().prop_map(|i| CutSel::Poll { i }),
         5 => any::<u16>().prop_map(|i| CutSel::Frame { i }),
-        1 => Just(CutSel::Stop),
+        2 => any::<u16>().prop_map(|i| CutSel::Stop { i }),
         1 => Just(CutSel::Timeout),
     ]
 }
@@ -225,7 +253,7 @@ fn map_cmd_body(map: u8, msg: MapMessage<i32, i64>) -> String {
     }
 }
 
-fn build_case(params: SimParams, cascade: bool, gs: Vec<G>, plan: CutPlan) -> Case {
+fn build_case(params: SimParams, cascade: bool, gs: Vec<G>, gs2: Vec<G>, plan: CutPlan) -> Case {
     // unique values: a value identifies one position of an item's history
     let mut next = 1i64;
     let mut fresh = || {
@@ -234,41 +262,50 @@ fn build_case(params: SimParams, cascade: bool, gs: Vec<G>, plan: CutPlan) -> Ca
         v
     };
     let mut programs: Vec<Vec<Act>> = vec![];
+    let mut convert = |gs: Vec<G>, ops: &mut Vec<Op>| {
+        for g in gs {
+            let op = match g {
+                G::Attach { in_cap, out_cap } => Op::Attach { in_cap, out_cap },
+                G::Link { r, lane } => Op::Link { r, lane },
+                G::Sync { r, lane } => Op::Sync { r, lane },
+                G::Unlink { r, lane } => Op::Unlink { r, lane },
+                G::SetV { r, lane } => Op::Cmd { r, lane, body: fresh().to_string() },
+                G::Upd { r, map, k } => Op::Cmd {
+                    r,
+                    lane: 3 + map,
+                    body: map_cmd_body(map, MapMessage::Update { key: k, value: fresh() }),
+                },
+                G::Rem { r, map, k } => Op::Cmd { r, lane: 3 + map, body: map_cmd_body(map, MapMessage::Remove { key: k }) },
+                G::Clr { r, map } => Op::Cmd { r, lane: 3 + map, body: map_cmd_body(map, MapMessage::Clear) },
+                G::Prog { r, mut acts } => {
+                    for a in acts.iter_mut() {
+                        match a {
+                            Act::SetV { v, .. } | Act::Upd { v, .. } | Act::SetS { v, .. } | Act::UpdS { v, .. } => *v = fresh(),
+                            _ => {}
+                        }
+                    }
+                    // each program is run by exactly one command, so its values stay unique
+                    programs.push(acts);
+                    Op::Cmd { r, lane: CTL, body: (programs.len() - 1).to_string() }
+                }
+                G::Drop { r } => Op::Drop { r },
+                G::Sched(op) => op,
+            };
+            ops.push(op);
+        }
+    };
     // every case starts with a remote so that later ops have a target
     let mut ops = vec![Op::Attach { in_cap: 64, out_cap: 32 }];
-    for g in gs {
-        let op = match g {
-            G::Attach { in_cap, out_cap } => Op::Attach { in_cap, out_cap },
-            G::Link { r, lane } => Op::Link { r, lane },
-            G::Sync { r, lane } => Op::Sync { r, lane },
-            G::Unlink { r, lane } => Op::Unlink { r, lane },
-            G::SetV { r, lane } => Op::Cmd { r, lane, body: fresh().to_string() },
-            G::Upd { r, map, k } => Op::Cmd {
-                r,
-                lane: 3 + map,
-                body: map_cmd_body(map, MapMessage::Update { key: k, value: fresh() }),
-            },
-            G::Rem { r, map, k } => Op::Cmd { r, lane: 3 + map, body: map_cmd_body(map, MapMessage::Remove { key: k }) },
-            G::Clr { r, map } => Op::Cmd { r, lane: 3 + map, body: map_cmd_body(map, MapMessage::Clear) },
-            G::Prog { r, mut acts } => {
-                for a in acts.iter_mut() {
-                    match a {
-                        Act::SetV { v, .. } | Act::Upd { v, .. } | Act::SetS { v, .. } | Act::UpdS { v, .. } => *v = fresh(),
-                        _ => {}
-                    }
-                }
-                // each program is run by exactly one command, so its values stay unique
-                programs.push(acts);
-                Op::Cmd { r, lane: CTL, body: (programs.len() - 1).to_string() }
-            }
-            G::Drop { r } => Op::Drop { r },
-            G::Sched(op) => op,
-        };
-        ops.push(op);
-    }
+    convert(gs, &mut ops);
     // the history always ends with everything delivered; the cuts range over the whole run
     ops.push(Op::Settle);
-    Case { params, cascade, programs, ops, plan }
+    let mut ops2 = vec![];
+    if !gs2.is_empty() {
+        convert(gs2, &mut ops2);
+        ops2.push(Op::Settle);
+    }
+    drop(convert);
+    Case { params, cascade, programs, ops, ops2, plan }
 }
 
 fn arb_case(max_ops: usize, ncuts: usize, all: bool) -> impl Strategy<Value = Case> {
@@ -277,8 +314,12 @@ fn arb_case(max_ops: usize, ncuts: usize, all: bool) -> impl Strategy<Value = Ca
     } else {
         proptest::collection::vec(arb_cutsel(), ncuts..=ncuts).prop_map(CutPlan::Sampled).boxed()
     };
-    (arb_params(), any::<bool>(), proptest::collection::vec(arb_g(), 3..max_ops), plan)
-        .prop_map(|(params, cascade, gs, plan)| build_case(params, cascade, gs, plan))
+    let second = prop_oneof![
+        1 => Just(vec![]),
+        1 => proptest::collection::vec(arb_g(), 1..(max_ops / 3).max(2)),
+    ];
+    (arb_params(), any::<bool>(), proptest::collection::vec(arb_g(), 3..max_ops), second, plan)
+        .prop_map(|(params, cascade, gs, gs2, plan)| build_case(params, cascade, gs, gs2, plan))
 }
 
 // ---------------------------------------------------------------------------------------------
@@ -422,30 +463,62 @@ impl Runner {
     }
 }
 
+/// What one incarnation of the agent did and showed.
+struct PhaseObs {
+    /// `Some` if the agent task had ended by itself before the incarnation was dropped.
+    result: Option<Result<(), String>>,
+    /// Frames read by each remote of this incarnation (all of them before it was dropped).
+    remotes: Vec<Vec<Frame>>,
+    trace: Vec<(u64, PEv)>,
+    /// Number of store log entries when the incarnation was dropped.
+    log_end: usize,
+}
+
 struct RunObs {
     cut: Cut,
     /// The requested cut point was reached (otherwise the run degenerated to `End`).
     fired: bool,
     /// Stop / Timeout: the agent task completed by itself.
     completed: bool,
-    result1: Option<Result<(), String>>,
-    remotes1: Vec<Vec<Frame>>,
-    trace1: Vec<(u64, PEv)>,
-    log: Vec<Entry>,
-    /// Number of log entries at the cut.
-    cut_len: usize,
-    ids: BTreeMap<String, u64>,
     /// (mutating store calls, frames read, system polls) during the history of incarnation 1.
     counts: (u64, usize, u64),
-    result2: Option<Result<(), String>>,
-    trace2: Vec<(u64, PEv)>,
-    frames2: Vec<Frame>,
+    phases: Vec<PhaseObs>,
+    log: Vec<Entry>,
+    ids: BTreeMap<String, u64>,
+}
+
+fn collect(sim: &mut Sim, shared: &Shared, data: &SharedData, crashed: bool) -> PhaseObs {
+    let result = if crashed { None } else { sim.result.clone() };
+    let remotes = sim.remotes.iter().map(|r| r.frames.clone()).collect();
+    // the system future (all tasks of the agent) is dropped here; the remotes go with the `Sim`
+    sim.crash();
+    let mut g = data.lock();
+    g.fault = None;
+    PhaseObs { result, remotes, trace: shared.trace(), log_end: g.log.len() }
+}
+
+/// Start a further incarnation on the surviving store data: initialisation, then a new remote syncs
+/// every lane and finally sends the probe command.
+fn boot(case: &Case, shared: &Arc<Shared>, data: &SharedData, clock: &Arc<AtomicU64>, inc: u32) -> Sim {
+    let agent = make_agent(shared.clone());
+    let store = RecStore::new(data.clone(), clock.clone(), inc);
+    let mut sim = Sim::start_with_store(&agent, &case.params, clock.clone(), None, store);
+    sim.run_until_idle();
+    let r = sim.attach(4096, 4096);
+    for lane in &LANES[..6] {
+        sim.remotes[r].send(lane, Req::Sync);
+    }
+    sim.settle();
+    sim.remotes[r].send("ctl", Req::Command(b"-1".to_vec()));
+    sim.settle();
+    sim
 }
 
 fn execute(case: &Case, cut: Cut) -> RunObs {
     block_on_paused(case.params.seed, async {
         let clock = Arc::new(AtomicU64::new(1));
         let data: SharedData = SharedData::default();
+        let mut phases = vec![];
         // ---- incarnation 1
         let shared = Shared::new(clock.clone(), case.programs.clone(), case.cascade);
         let agent = make_agent(shared.clone());
@@ -455,11 +528,17 @@ fn execute(case: &Case, cut: Cut) -> RunObs {
         sim.run_until_idle();
         let base_mut = data.lock().mutations;
         if let Cut::StoreCall { n, after } = cut {
-            data.lock().fault = Some(Fault { at: base_mut + n, after_apply: after });
+            data.lock().fault = Some(Fault { at: base_mut + n, after_apply: after, error: false });
+        }
+        if let Cut::StoreError(n) = cut {
+            data.lock().fault = Some(Fault { at: base_mut + n, after_apply: false, error: true });
         }
         let polls0 = sim.polls;
         let mut run = Runner { sim, cut, frames: 0, polls0, hit: false };
-        for op in &case.ops {
+        for (j, op) in case.ops.iter().enumerate() {
+            if cut == Cut::Stop(j) {
+                break;
+            }
             run.apply(op).await;
             if run.hit {
                 break;
@@ -469,7 +548,7 @@ fn execute(case: &Case, cut: Cut) -> RunObs {
         let mut completed = false;
         if !run.hit {
             match cut {
-                Cut::Stop => {
+                Cut::Stop(_) => {
                     run.sim.stop();
                     run.settle();
                     for _ in 0..4 {
@@ -494,57 +573,52 @@ fn execute(case: &Case, cut: Cut) -> RunObs {
                     completed = run.sim.is_done();
                     fired = true;
                 }
+                Cut::StoreError(_) => {
+                    // the runtime fails by itself; give it time to shut down with all remotes reading
+                    fired = data.lock().fired;
+                    for _ in 0..4 {
+                        if run.sim.is_done() {
+                            break;
+                        }
+                        run.sim.advance(Duration::from_millis(case.params.shutdown_timeout_ms + 1)).await;
+                        run.settle();
+                    }
+                    completed = run.sim.is_done();
+                }
                 Cut::End => fired = true,
                 _ => {}
             }
         }
-        let result1 = if run.hit { None } else { run.sim.result.clone() };
         let counts = (data.lock().mutations - base_mut, run.frames, run.sim.polls - polls0);
-        let remotes1: Vec<Vec<Frame>> = run.sim.remotes.iter().map(|r| r.frames.clone()).collect();
-        // the cut: the system future (all tasks of the agent) and all remotes are dropped here
-        run.sim.crash();
+        // ---- the cut
+        let crashed = run.hit;
+        phases.push(collect(&mut run.sim, &shared, &data, crashed));
         drop(run);
         drop(agent);
-        let trace1 = shared.trace();
-        let cut_len = {
-            let mut g = data.lock();
-            g.fault = None;
-            g.log.len()
-        };
         tokio::task::yield_now().await;
 
         // ---- incarnation 2: a fresh agent (new lifecycle state) on the surviving store data
-        let shared2 = Shared::new(clock.clone(), vec![], case.cascade);
-        let agent2 = make_agent(shared2.clone());
-        let store2 = RecStore::new(data.clone(), clock.clone(), 2);
-        let mut sim2 = Sim::start_with_store(&agent2, &case.params, clock.clone(), None, store2);
-        sim2.run_until_idle();
-        let r = sim2.attach(4096, 4096);
-        for lane in &LANES[..6] {
-            sim2.remotes[r].send(lane, Req::Sync);
+        let shared2 = Shared::new(clock.clone(), case.programs.clone(), case.cascade);
+        let mut sim2 = boot(case, &shared2, &data, &clock, 2);
+        if case.ops2.is_empty() || sim2.is_done() {
+            phases.push(collect(&mut sim2, &shared2, &data, false));
+        } else {
+            // a second history on the restored state, killed at quiescence
+            let polls0 = sim2.polls;
+            let mut run2 = Runner { sim: sim2, cut: Cut::End, frames: 0, polls0, hit: false };
+            for op in &case.ops2 {
+                run2.apply(op).await;
+            }
+            phases.push(collect(&mut run2.sim, &shared2, &data, false));
+            drop(run2);
+            tokio::task::yield_now().await;
+            // ---- incarnation 3
+            let shared3 = Shared::new(clock.clone(), vec![], case.cascade);
+            let mut sim3 = boot(case, &shared3, &data, &clock, 3);
+            phases.push(collect(&mut sim3, &shared3, &data, false));
         }
-        sim2.settle();
-        sim2.remotes[r].send("ctl", Req::Command(b"-1".to_vec()));
-        sim2.settle();
-        let frames2 = sim2.remotes[r].frames.clone();
-        let result2 = sim2.result.clone();
-        drop(sim2);
         let g = data.lock();
-        RunObs {
-            cut,
-            fired,
-            completed,
-            result1,
-            remotes1,
-            trace1,
-            log: g.log.clone(),
-            cut_len,
-            ids: g.ids.clone(),
-            counts,
-            result2,
-            trace2: shared2.trace(),
-            frames2,
-        }
+        RunObs { cut, fired, completed, counts, phases, log: g.log.clone(), ids: g.ids.clone() }
     })
 }
 
@@ -562,8 +636,9 @@ enum TOp {
 
 #[derive(Clone, Debug)]
 struct TEntry {
+    /// Index in the store log.
+    pos: usize,
     seq: u64,
-    inc: u32,
     applied: bool,
     op: TOp,
 }
@@ -605,10 +680,23 @@ fn parse_map_event(it: &ItemDef, b: &[u8]) -> Option<TOp> {
     }
 }
 
+fn show_call(c: &Call) -> String {
+    match c {
+        Call::IdFor(n) => format!("id_for({})", n),
+        Call::GetValue(id) => format!("get_value({})", id),
+        Call::ReadMap(id) => format!("read_map({})", id),
+        Call::PutValue(id, b) => format!("put_value({}, {})", id, utf8(b)),
+        Call::DeleteValue(id) => format!("delete_value({})", id),
+        Call::UpdateMap(id, k, b) => format!("update_map({}, {}, {})", id, utf8(k), utf8(b)),
+        Call::RemoveMap(id, k) => format!("remove_map({}, {})", id, utf8(k)),
+        Call::ClearMap(id) => format!("clear_map({})", id),
+    }
+}
+
 /// The mutating store calls for one item, decoded. Undecodable bytes are reported.
 fn typed_log(it: &ItemDef, id: u64, log: &[Entry], v: &mut Verdict) -> Vec<TEntry> {
     let mut out = vec![];
-    for e in log {
+    for (pos, e) in log.iter().enumerate() {
         if e.call.id() != Some(id) || !e.call.is_mutation() {
             continue;
         }
@@ -626,27 +714,14 @@ fn typed_log(it: &ItemDef, id: u64, log: &[Entry], v: &mut Verdict) -> Vec<TEntr
             None => false,
         };
         match op {
-            Some(op) if kind_ok => out.push(TEntry { seq: e.seq, inc: e.inc, applied: e.applied, op }),
+            Some(op) if kind_ok => out.push(TEntry { pos, seq: e.seq, applied: e.applied, op }),
             _ => v.fail(
                 "store-call-undecodable",
-                format!("item {}: store call {:?} does not decode as an operation of this item", it.name, show_call(&e.call)),
+                format!("item {}: store call {} does not decode as an operation of this item", it.name, show_call(&e.call)),
             ),
         }
     }
     out
-}
-
-fn show_call(c: &Call) -> String {
-    match c {
-        Call::IdFor(n) => format!("id_for({})", n),
-        Call::GetValue(id) => format!("get_value({})", id),
-        Call::ReadMap(id) => format!("read_map({})", id),
-        Call::PutValue(id, b) => format!("put_value({}, {})", id, utf8(b)),
-        Call::DeleteValue(id) => format!("delete_value({})", id),
-        Call::UpdateMap(id, k, b) => format!("update_map({}, {}, {})", id, utf8(k), utf8(b)),
-        Call::RemoveMap(id, k) => format!("remove_map({}, {})", id, utf8(k)),
-        Call::ClearMap(id) => format!("clear_map({})", id),
-    }
 }
 
 fn fold(it: &ItemDef, entries: &[TEntry]) -> St {
@@ -668,7 +743,7 @@ fn fold(it: &ItemDef, entries: &[TEntry]) -> St {
     st
 }
 
-/// What the sync of `lane` by the new remote of incarnation 2 shows.
+/// What the first sync of `lane` by the probing remote of a restarted incarnation shows.
 fn synced_state(it: &ItemDef, frames: &[Frame]) -> Result<St, String> {
     let mut st = default_state(it);
     let mut saw_event = false;
@@ -725,365 +800,425 @@ fn cut_class(obs: &RunObs) -> &'static str {
         Cut::End => "cut:end",
         Cut::StoreCall { after: false, .. } => "cut:store-call-before-apply",
         Cut::StoreCall { after: true, .. } => "cut:store-call-after-apply",
+        Cut::StoreError(_) => "cut:store-call-returns-error",
         Cut::Poll(_) => "cut:poll",
         Cut::Frame(_) => "cut:frame",
-        Cut::Stop => "cut:stop",
+        Cut::Stop(_) => "cut:stop",
         Cut::Timeout => "cut:timeout",
     }
 }
 
-fn judge(obs: &RunObs, v: &mut Verdict) -> RunStats {
-    let mut stats = RunStats::default();
-    let ctx = format!("[cut {:?} fired={} completed={}]", obs.cut, obs.fired, obs.completed);
-    let dump = std::env::var("VERIF_DUMP").is_ok();
-    if dump {
-        eprintln!("==== run {}", ctx);
-        for (i, frames) in obs.remotes1.iter().enumerate() {
+fn dump(obs: &RunObs, ctx: &str) {
+    eprintln!("==== run {}", ctx);
+    let mut next_log = 0;
+    for (pi, ph) in obs.phases.iter().enumerate() {
+        eprintln!("---- incarnation {} result {:?}", pi + 1, ph.result);
+        for (i, frames) in ph.remotes.iter().enumerate() {
             for f in frames {
                 eprintln!("remote {} frame: {} {} {:?} body={:?}", i, f.seq, f.lane, f.kind, f.body_str());
             }
         }
-        for (s, e) in &obs.trace1 {
-            eprintln!("trace1 {} {:?}", s, e);
+        for (s, e) in &ph.trace {
+            eprintln!("trace {} {:?}", s, e);
         }
-        for (i, e) in obs.log.iter().enumerate() {
-            eprintln!(
-                "log[{}]{} seq={} inc={} applied={} {}",
-                i,
-                if i == obs.cut_len { " <- cut" } else { "" },
-                e.seq,
-                e.inc,
-                e.applied,
-                show_call(&e.call)
-            );
+        for (i, e) in obs.log.iter().enumerate().take(ph.log_end).skip(next_log) {
+            eprintln!("log[{}] seq={} inc={} applied={} {}", i, e.seq, e.inc, e.applied, show_call(&e.call));
         }
-        for (s, e) in &obs.trace2 {
-            eprintln!("trace2 {} {:?}", s, e);
-        }
-        for f in &obs.frames2 {
-            eprintln!("inc2 frame: {} {} {:?} body={:?}", f.seq, f.lane, f.kind, f.body_str());
-        }
-        eprintln!("result1 {:?} result2 {:?}", obs.result1, obs.result2);
+        next_log = ph.log_end;
+    }
+}
+
+/// Observations of a restarted incarnation right after its start.
+struct Restored<'a> {
+    start: Option<(u64, &'a Snap)>,
+    probe: Option<&'a Snap>,
+    /// Frames of the probing remote (the first remote of the incarnation).
+    frames: &'a [Frame],
+}
+
+fn judge(obs: &RunObs, v: &mut Verdict) -> RunStats {
+    let mut stats = RunStats::default();
+    if std::env::var("VERIF_DUMP").is_ok() {
+        dump(obs, &format!("{:?}", obs.cut));
     }
 
-    if let Some(Err(e)) = &obs.result1 {
-        v.fail("agent-failed", format!("{} the agent task of incarnation 1 ended with an error: {}", ctx, e));
-    }
-    if let Some(r) = &obs.result2 {
-        v.fail(
-            "restart:agent-ended",
-            format!("{} the restarted agent ended during initialisation / sync: {:?}", ctx, r),
-        );
-        return stats;
-    }
-
-    let log1 = &obs.log[..obs.cut_len];
-    let start2 = obs.trace2.iter().find_map(|(s, e)| match e {
-        PEv::Start(snap) => Some((*s, snap)),
-        _ => None,
-    });
-    let probe2 = obs.trace2.iter().find_map(|(_, e)| match e {
-        PEv::Probe(snap) => Some(snap),
-        _ => None,
-    });
-    // on_start of the second incarnation is its first handler and ran exactly once
-    let starts = obs.trace2.iter().filter(|(_, e)| matches!(e, PEv::Start(_))).count();
-    if starts != 1 || !matches!(obs.trace2.first(), Some((_, PEv::Start(_)))) {
-        v.fail(
-            "restart:on-start-order",
-            format!("{} on_start of the restarted agent ran {} times / was not the first handler: {:?}", ctx, starts, obs.trace2.iter().map(|(s, _)| s).collect::<Vec<_>>()),
-        );
-    }
-    if let Some((s, _)) = start2 {
-        // ... and after the stored state of every item had been read
-        if let Some(late) = obs.log[obs.cut_len..]
-            .iter()
-            .find(|e| matches!(e.call, Call::GetValue(_) | Call::ReadMap(_)) && e.seq > s)
-        {
-            v.fail(
-                "restart:on-start-before-init",
-                format!("{} on_start ran at seq {} but {} happened at seq {}", ctx, s, show_call(&late.call), late.seq),
-            );
+    // decoded store log per item
+    let mut typed: Vec<Vec<TEntry>> = vec![];
+    for it in ITEMS.iter() {
+        typed.push(match obs.ids.get(it.name) {
+            Some(id) => typed_log(it, *id, &obs.log, v),
+            None => vec![],
+        });
+        if !it.persistent && obs.ids.contains_key(it.name) {
+            stats.classes.push("transient-item-known-to-store");
         }
-    }
-    if probe2.is_none() {
-        v.fail("restart:no-probe", format!("{} the restarted agent did not answer the probe command", ctx));
     }
 
     let mut store_ops_before_cut = 0usize;
     let mut persistent_event_frames = 0usize;
     let mut lost_tail = false;
 
-    for it in ITEMS.iter() {
-        let id = obs.ids.get(it.name).copied();
-        let entries_all = match id {
-            Some(id) => typed_log(it, id, &obs.log, v),
-            None => vec![],
-        };
-        let n1 = match id {
-            Some(id) => log1.iter().filter(|e| e.call.id() == Some(id) && e.call.is_mutation()).count(),
-            None => 0,
-        };
-        let entries1 = &entries_all[..n1.min(entries_all.len())];
-        let _ = entries1.iter().map(|e| e.inc).max();
-        if it.persistent {
-            store_ops_before_cut += entries1.iter().filter(|e| e.applied).count();
-        } else if id.is_some() {
-            stats.classes.push("transient-item-known-to-store");
+    for (pi, ph) in obs.phases.iter().enumerate() {
+        let inc = pi + 1;
+        let ctx = format!("[cut {:?} fired={} completed={} incarnation {}]", obs.cut, obs.fired, obs.completed, inc);
+        let log_start = if pi == 0 { 0 } else { obs.phases[pi - 1].log_end };
+        match (&ph.result, pi) {
+            // requested by a generated program
+            (Some(Err(_)), _) if ph.trace.iter().any(|(_, e)| matches!(e, PEv::Did(Act::Fail))) => {}
+            // the injected store error is reported by the task
+            (Some(Err(_)), 0) if matches!(obs.cut, Cut::StoreError(_)) && obs.fired => {}
+            (Some(Err(e)), 0) => v.fail("agent-failed", format!("{} the agent task ended with an error: {}", ctx, e)),
+            (Some(Err(e)), _) => {
+                v.fail(
+                    "restart:agent-failed",
+                    format!("{} the restarted agent failed during initialisation / sync / its history: {}", ctx, e),
+                );
+                break;
+            }
+            (Some(Ok(())), _) if !(pi == 0 && matches!(obs.cut, Cut::Stop(_) | Cut::Timeout)) => {
+                // a handler stopped the agent, or (rare) 30 s passed without activity in a long history
+                stats.classes.push("agent-ended-by-itself");
+            }
+            _ => {}
         }
 
-        // ---- restart: the state of the item after the restart
-        let expected = if it.persistent { fold(it, entries1) } else { default_state(it) };
-        let what = match (it.persistent, it.is_lane, it.is_map) {
-            (true, true, false) => "restart:value-lane",
-            (true, true, true) => "restart:map-lane",
-            (true, false, false) => "restart:value-store",
-            (true, false, true) => "restart:map-store",
-            (false, true, false) => "restart:transient-value-lane-not-default",
-            (false, true, true) => "restart:transient-map-lane-not-default",
-            (false, false, false) => "restart:transient-value-store-not-default",
-            (false, false, true) => "restart:transient-map-store-not-default",
+        // ---- what this incarnation showed right after its start (restarted incarnations only)
+        let mine = if pi > 0 {
+            let start = ph.trace.iter().find_map(|(s, e)| match e {
+                PEv::Start(snap) => Some((*s, snap)),
+                _ => None,
+            });
+            let probe = ph.trace.iter().find_map(|(_, e)| match e {
+                PEv::Probe(snap) => Some(snap),
+                _ => None,
+            });
+            // on_start is the first handler of the incarnation and ran exactly once
+            let starts = ph.trace.iter().filter(|(_, e)| matches!(e, PEv::Start(_))).count();
+            if starts != 1 || !matches!(ph.trace.first(), Some((_, PEv::Start(_)))) {
+                v.fail(
+                    "restart:on-start-order",
+                    format!("{} on_start of the restarted agent ran {} times / was not the first handler", ctx, starts),
+                );
+            }
+            if let Some((s, _)) = start {
+                // ... and after the stored state of every item had been read
+                if let Some(late) = obs.log[log_start..ph.log_end]
+                    .iter()
+                    .find(|e| matches!(e.call, Call::GetValue(_) | Call::ReadMap(_)) && e.seq > s)
+                {
+                    v.fail(
+                        "restart:on-start-before-init",
+                        format!("{} on_start ran at seq {} but {} happened at seq {}", ctx, s, show_call(&late.call), late.seq),
+                    );
+                }
+            }
+            if probe.is_none() {
+                v.fail("restart:no-probe", format!("{} the restarted agent did not answer the probe command", ctx));
+            }
+            Some(Restored { start, probe, frames: ph.remotes.first().map(|f| f.as_slice()).unwrap_or(&[]) })
+        } else {
+            None
         };
-        let describe = |seen_by: &str, got: &St| {
-            format!(
-                "{} item {}: {} shows {:?} after the restart but the store operations handed over before the cut imply {:?}; operations of this item before the cut: {:?}",
-                ctx,
-                it.name,
-                seen_by,
-                got,
-                expected,
-                entries1.iter().map(|e| (e.seq, e.applied, &e.op)).collect::<Vec<_>>()
-            )
-        };
-        let at_start = start2.and_then(|(_, s)| snap_state(s, it));
-        if let Some(got) = &at_start {
-            if *got != expected {
-                v.fail(format!("{}/on_start", what), describe("on_start", got));
-            }
-        }
-        if let Some(got) = probe2.and_then(|s| snap_state(s, it)) {
-            if got != expected {
-                v.fail(format!("{}/probe", what), describe("the probe after the sync", &got));
-            }
-        }
-        let mut restored = at_start;
-        if it.is_lane {
-            match synced_state(it, &obs.frames2) {
-                Ok(got) => {
-                    if got != expected {
-                        v.fail(format!("{}/sync", what), describe("the sync by a new remote", &got));
-                    }
-                    restored = Some(got);
-                }
-                Err(e) => v.fail(
-                    "restart:sync-incomplete",
-                    format!("{} lane {}: the sync by the new remote did not complete: {}", ctx, it.name, e),
-                ),
-            }
-        }
-        if expected != default_state(it) {
-            stats.classes.push(if it.is_map { "restored-nonempty-map" } else { "restored-nondefault-value" });
-        }
+        // ---- what the next incarnation showed (the state restored from what this one left)
+        let next = obs.phases.get(pi + 1).map(|n| Restored {
+            start: n.trace.iter().find_map(|(s, e)| match e {
+                PEv::Start(snap) => Some((*s, snap)),
+                _ => None,
+            }),
+            probe: None,
+            frames: n.remotes.first().map(|f| f.as_slice()).unwrap_or(&[]),
+        });
 
-        if !(it.persistent && it.is_lane) {
-            if it.persistent && !entries1.is_empty() {
-                stats.classes.push("store-item-persisted");
+        for (ii, it) in ITEMS.iter().enumerate() {
+            let all = &typed[ii];
+            // operations handed over before this incarnation started / by this incarnation
+            let before: Vec<TEntry> = all.iter().filter(|e| e.pos < log_start).cloned().collect();
+            let entries: Vec<TEntry> = all.iter().filter(|e| e.pos >= log_start && e.pos < ph.log_end).cloned().collect();
+            let initial = if it.persistent { fold(it, &before) } else { default_state(it) };
+            if pi == 0 && it.persistent {
+                store_ops_before_cut += entries.iter().filter(|e| e.applied).count();
             }
-            continue;
-        }
 
-        // ---- order: frames of a persistent lane vs the store log
-        // ---- never-older: restored state vs what subscribers saw, in the lane's own history
-        if it.is_map {
-            // per key history of the lane from the agent-side trace (index 0 = initially absent)
-            let mut keys: BTreeSet<K> = BTreeSet::new();
-            for (_, e) in &obs.trace1 {
-                if let PEv::Update { map, k, .. } | PEv::Remove { map, k } = e {
-                    if *map == it.trace_idx {
-                        keys.insert(k.clone());
+            // ---- restart: the state of the item at the start of a restarted incarnation
+            if let Some(mine) = &mine {
+                let what = match (it.persistent, it.is_lane, it.is_map) {
+                    (true, true, false) => "restart:value-lane",
+                    (true, true, true) => "restart:map-lane",
+                    (true, false, false) => "restart:value-store",
+                    (true, false, true) => "restart:map-store",
+                    (false, true, false) => "restart:transient-value-lane-not-default",
+                    (false, true, true) => "restart:transient-map-lane-not-default",
+                    (false, false, false) => "restart:transient-value-store-not-default",
+                    (false, false, true) => "restart:transient-map-store-not-default",
+                };
+                let describe = |seen_by: &str, got: &St| {
+                    format!(
+                        "{} item {}: {} shows {:?} after the restart but the store operations handed over before the cut imply {:?}; operations of this item before the cut: {:?}",
+                        ctx,
+                        it.name,
+                        seen_by,
+                        got,
+                        initial,
+                        before.iter().map(|e| (e.seq, e.applied, &e.op)).collect::<Vec<_>>()
+                    )
+                };
+                if let Some(got) = mine.start.and_then(|(_, s)| snap_state(s, it)) {
+                    if got != initial {
+                        v.fail(format!("{}/on_start", what), describe("on_start", &got));
                     }
                 }
-            }
-            let mut hist: BTreeMap<K, Vec<Option<i64>>> = keys.iter().map(|k| (k.clone(), vec![None])).collect();
-            let mut final_map: BTreeMap<K, i64> = BTreeMap::new();
-            for (_, e) in &obs.trace1 {
-                match e {
-                    PEv::Update { map, k, v } if *map == it.trace_idx => {
-                        hist.get_mut(k).unwrap().push(Some(*v));
-                        final_map.insert(k.clone(), *v);
+                if let Some(got) = mine.probe.and_then(|s| snap_state(s, it)) {
+                    if got != initial {
+                        v.fail(format!("{}/probe", what), describe("the probe after the sync", &got));
                     }
-                    PEv::Remove { map, k } if *map == it.trace_idx => {
-                        hist.get_mut(k).unwrap().push(None);
-                        final_map.remove(k);
-                    }
-                    PEv::Clear { map } if *map == it.trace_idx => {
-                        for h in hist.values_mut() {
-                            h.push(None);
+                }
+                if it.is_lane {
+                    match synced_state(it, mine.frames) {
+                        Ok(got) => {
+                            if got != initial {
+                                v.fail(format!("{}/sync", what), describe("the sync by a new remote", &got));
+                            }
                         }
-                        final_map.clear();
+                        Err(e) => v.fail(
+                            "restart:sync-incomplete",
+                            format!("{} lane {}: the sync by the new remote did not complete: {}", ctx, it.name, e),
+                        ),
                     }
-                    _ => {}
+                }
+                if pi == 1 && initial != default_state(it) {
+                    stats.classes.push(if it.is_map { "restored-nonempty-map" } else { "restored-nondefault-value" });
                 }
             }
-            if St::M(final_map) != expected {
-                lost_tail = true;
+
+            if !(it.persistent && it.is_lane) {
+                if pi == 0 && it.persistent && !entries.is_empty() {
+                    stats.classes.push("store-item-persisted");
+                }
+                continue;
             }
-            let mut seen_max: BTreeMap<K, usize> = BTreeMap::new();
-            for (ri, frames) in obs.remotes1.iter().enumerate() {
-                // positions in `entries1` (log order) below which the remote's knowledge cannot lie
-                let mut floor_key: HashMap<K, usize> = HashMap::new();
-                let mut floor_all = 0usize;
-                let mut seen: BTreeMap<K, usize> = BTreeMap::new();
-                for f in frames.iter().filter(|f| f.lane == it.name) {
-                    let FrameKind::Event(body) = &f.kind else { continue };
-                    persistent_event_frames += 1;
-                    let Some(op) = parse_map_event(it, body) else {
-                        continue; // not a map operation: C02/C04 territory
-                    };
-                    let before = |e: &TEntry| e.seq < f.seq;
-                    match &op {
-                        TOp::Upd(k, _) => {
-                            match entries1.iter().position(|e| e.op == op && before(e)) {
-                                Some(p) => {
-                                    let fl = floor_key.entry(k.clone()).or_insert(0);
-                                    *fl = (*fl).max(p + 1);
-                                }
-                                None => v.fail(
-                                    "order:map-update-frame-before-store",
-                                    format!(
-                                        "{} remote {} read the event {:?} of lane {} at seq {} but no update_map with that entry was recorded before it; store operations of the lane: {:?}",
-                                        ctx, ri, utf8(body), it.name, f.seq,
-                                        entries1.iter().map(|e| (e.seq, &e.op)).collect::<Vec<_>>()
-                                    ),
-                                ),
-                            }
-                            if let (TOp::Upd(k, val), Some(h)) = (&op, hist.get(k)) {
-                                if let Some(i) = h.iter().position(|s| *s == Some(*val)) {
-                                    seen.insert(k.clone(), i);
-                                }
-                            }
+            // the state the next incarnation came back with (sync by its probing remote, else on_start)
+            let restored: Option<St> = next.as_ref().and_then(|n| {
+                synced_state(it, n.frames).ok().or_else(|| n.start.and_then(|(_, s)| snap_state(s, it)))
+            });
+            let expected_after = {
+                let mut upto = before.clone();
+                upto.extend(entries.iter().cloned());
+                fold(it, &upto)
+            };
+            let show_entries = || entries.iter().map(|e| (e.seq, &e.op)).collect::<Vec<_>>();
+
+            // ---- order: frames of a persistent lane vs the store log of this incarnation
+            // ---- never-older: restored state vs what subscribers saw, in the lane's own history
+            if it.is_map {
+                let St::M(init_map) = &initial else { continue };
+                // per key history of the lane (index 0 = the state the incarnation started with)
+                let mut keys: BTreeSet<K> = init_map.keys().cloned().collect();
+                for (_, e) in &ph.trace {
+                    if let PEv::Update { map, k, .. } | PEv::Remove { map, k } = e {
+                        if *map == it.trace_idx {
+                            keys.insert(k.clone());
                         }
-                        TOp::Rem(k) => {
-                            let start = floor_all.max(floor_key.get(k).copied().unwrap_or(0));
-                            match entries1.iter().enumerate().skip(start).find(|(_, e)| e.op == op && before(e)) {
-                                Some((p, _)) => {
-                                    floor_key.insert(k.clone(), p + 1);
-                                }
-                                None => v.fail(
-                                    "order:map-remove-frame-before-store",
-                                    format!(
-                                        "{} remote {} read the event {:?} of lane {} at seq {} but no remove_map for the key (newer than what the remote had seen, log position >= {}) was recorded before it; store operations of the lane: {:?}",
-                                        ctx, ri, utf8(body), it.name, f.seq, start,
-                                        entries1.iter().map(|e| (e.seq, &e.op)).collect::<Vec<_>>()
-                                    ),
-                                ),
-                            }
-                            if let Some(h) = hist.get(k) {
-                                let from = seen.get(k).copied().unwrap_or(0);
-                                if let Some(i) = h.iter().enumerate().skip(from + 1).find(|(_, s)| s.is_none()).map(|(i, _)| i) {
-                                    seen.insert(k.clone(), i);
-                                }
-                            }
+                    }
+                }
+                let mut hist: BTreeMap<K, Vec<Option<i64>>> =
+                    keys.iter().map(|k| (k.clone(), vec![init_map.get(k).copied()])).collect();
+                let mut final_map = init_map.clone();
+                for (_, e) in &ph.trace {
+                    match e {
+                        PEv::Update { map, k, v } if *map == it.trace_idx => {
+                            hist.get_mut(k).unwrap().push(Some(*v));
+                            final_map.insert(k.clone(), *v);
                         }
-                        TOp::Clr => {
-                            match entries1.iter().enumerate().skip(floor_all).find(|(_, e)| e.op == TOp::Clr && before(e)) {
-                                Some((p, _)) => floor_all = p + 1,
-                                None => v.fail(
-                                    "order:map-clear-frame-before-store",
-                                    format!(
-                                        "{} remote {} read a clear event of lane {} at seq {} but no clear_map (log position >= {}) was recorded before it; store operations of the lane: {:?}",
-                                        ctx, ri, it.name, f.seq, floor_all,
-                                        entries1.iter().map(|e| (e.seq, &e.op)).collect::<Vec<_>>()
-                                    ),
-                                ),
+                        PEv::Remove { map, k } if *map == it.trace_idx => {
+                            hist.get_mut(k).unwrap().push(None);
+                            final_map.remove(k);
+                        }
+                        PEv::Clear { map } if *map == it.trace_idx => {
+                            for h in hist.values_mut() {
+                                h.push(None);
                             }
-                            for (k, h) in hist.iter() {
-                                let from = seen.get(k).copied().unwrap_or(0);
-                                if let Some(i) = h.iter().enumerate().skip(from + 1).find(|(_, s)| s.is_none()).map(|(i, _)| i) {
-                                    seen.insert(k.clone(), i);
-                                }
-                            }
+                            final_map.clear();
                         }
                         _ => {}
                     }
                 }
-                for (k, i) in seen {
-                    let e = seen_max.entry(k).or_insert(0);
-                    *e = (*e).max(i);
+                if pi == 0 && St::M(final_map) != expected_after {
+                    lost_tail = true;
                 }
-            }
-            if let Some(St::M(restored)) = &restored {
-                for (k, i) in &seen_max {
-                    let h = &hist[k];
-                    let ok = match restored.get(k) {
-                        // a value the lane never held is reported by the restart rule
-                        Some(w) => h.iter().rposition(|s| *s == Some(*w)).map(|j| j >= *i).unwrap_or(true),
-                        None => h.iter().skip(*i).any(|s| s.is_none()),
-                    };
-                    if !ok {
-                        v.fail(
-                            "restart:older-than-seen:map-lane",
-                            format!(
-                                "{} lane {} key {:?}: restored entry {:?} is older than history index {} which a subscriber had already read; history of the key: {:?}",
-                                ctx, it.name, k, restored.get(k), i, h
-                            ),
-                        );
+                let mut seen_max: BTreeMap<K, usize> = BTreeMap::new();
+                for (ri, frames) in ph.remotes.iter().enumerate() {
+                    // positions in `entries` (log order) below which the remote's knowledge cannot lie
+                    let mut floor_key: HashMap<K, usize> = HashMap::new();
+                    let mut floor_all = 0usize;
+                    let mut seen: BTreeMap<K, usize> = BTreeMap::new();
+                    for f in frames.iter().filter(|f| f.lane == it.name) {
+                        let FrameKind::Event(body) = &f.kind else { continue };
+                        if pi == 0 {
+                            persistent_event_frames += 1;
+                        }
+                        let Some(op) = parse_map_event(it, body) else {
+                            continue; // not a map operation: C02/C04 territory
+                        };
+                        let recorded = |e: &TEntry| e.applied && e.seq < f.seq;
+                        match &op {
+                            TOp::Upd(k, val) => {
+                                match entries.iter().position(|e| e.op == op && recorded(e)) {
+                                    Some(p) => {
+                                        let fl = floor_key.entry(k.clone()).or_insert(0);
+                                        *fl = (*fl).max(p + 1);
+                                    }
+                                    // an entry the incarnation started with is implied by the store as it was
+                                    None if init_map.get(k) == Some(val) => {}
+                                    None => v.fail(
+                                        "order:map-update-frame-before-store",
+                                        format!(
+                                            "{} remote {} read the event {:?} of lane {} at seq {} but no update_map with that entry was recorded before it; store operations of the lane in this incarnation: {:?}",
+                                            ctx, ri, utf8(body), it.name, f.seq, show_entries()
+                                        ),
+                                    ),
+                                }
+                                if let Some(h) = hist.get(k) {
+                                    if let Some(i) = h.iter().position(|s| *s == Some(*val)) {
+                                        seen.insert(k.clone(), i);
+                                    }
+                                }
+                            }
+                            TOp::Rem(k) => {
+                                let start = floor_all.max(floor_key.get(k).copied().unwrap_or(0));
+                                match entries.iter().enumerate().skip(start).find(|(_, e)| e.op == op && recorded(e)) {
+                                    Some((p, _)) => {
+                                        floor_key.insert(k.clone(), p + 1);
+                                    }
+                                    None => v.fail(
+                                        "order:map-remove-frame-before-store",
+                                        format!(
+                                            "{} remote {} read the event {:?} of lane {} at seq {} but no remove_map for the key (newer than what the remote had seen: position >= {} among the lane's store operations) was recorded before it; store operations of the lane in this incarnation: {:?}",
+                                            ctx, ri, utf8(body), it.name, f.seq, start, show_entries()
+                                        ),
+                                    ),
+                                }
+                                if let Some(h) = hist.get(k) {
+                                    let from = seen.get(k).copied().unwrap_or(0);
+                                    if let Some(i) = h.iter().enumerate().skip(from + 1).find(|(_, s)| s.is_none()).map(|(i, _)| i) {
+                                        seen.insert(k.clone(), i);
+                                    }
+                                }
+                            }
+                            TOp::Clr => {
+                                match entries.iter().enumerate().skip(floor_all).find(|(_, e)| e.op == TOp::Clr && recorded(e)) {
+                                    Some((p, _)) => floor_all = p + 1,
+                                    None => v.fail(
+                                        "order:map-clear-frame-before-store",
+                                        format!(
+                                            "{} remote {} read a clear event of lane {} at seq {} but no clear_map (position >= {} among the lane's store operations) was recorded before it; store operations of the lane in this incarnation: {:?}",
+                                            ctx, ri, it.name, f.seq, floor_all, show_entries()
+                                        ),
+                                    ),
+                                }
+                                for (k, h) in hist.iter() {
+                                    let from = seen.get(k).copied().unwrap_or(0);
+                                    if let Some(i) = h.iter().enumerate().skip(from + 1).find(|(_, s)| s.is_none()).map(|(i, _)| i) {
+                                        seen.insert(k.clone(), i);
+                                    }
+                                }
+                            }
+                            _ => {}
+                        }
+                    }
+                    for (k, i) in seen {
+                        let e = seen_max.entry(k).or_insert(0);
+                        *e = (*e).max(i);
                     }
                 }
-            }
-        } else {
-            let mut hist: Vec<i64> = vec![0];
-            for (_, e) in &obs.trace1 {
-                if let PEv::Value { lane, v } = e {
-                    if *lane == it.trace_idx {
-                        hist.push(*v);
+                if let Some(St::M(restored)) = &restored {
+                    for (k, i) in &seen_max {
+                        let h = &hist[k];
+                        let ok = match restored.get(k) {
+                            // a value the lane never held is reported by the restart rule
+                            Some(w) => h.iter().rposition(|s| *s == Some(*w)).map(|j| j >= *i).unwrap_or(true),
+                            None => h.iter().skip(*i).any(|s| s.is_none()),
+                        };
+                        if !ok {
+                            v.fail(
+                                "restart:older-than-seen:map-lane",
+                                format!(
+                                    "{} lane {} key {:?}: the entry restored by the next incarnation, {:?}, is older than history index {} which a subscriber had already read; history of the key: {:?}",
+                                    ctx, it.name, k, restored.get(k), i, h
+                                ),
+                            );
+                        }
                     }
                 }
-            }
-            if St::V(*hist.last().unwrap()) != expected {
-                lost_tail = true;
-            }
-            let mut seen_max = 0usize;
-            for (ri, frames) in obs.remotes1.iter().enumerate() {
-                for f in frames.iter().filter(|f| f.lane == it.name) {
-                    let FrameKind::Event(body) = &f.kind else { continue };
-                    persistent_event_frames += 1;
-                    let Some(val) = parse_i64(body) else {
-                        continue; // not a value of the lane: C01/C04 territory
-                    };
-                    if !entries1.iter().any(|e| e.op == TOp::Put(val) && e.seq < f.seq) {
-                        v.fail(
-                            "order:value-frame-before-store",
-                            format!(
-                                "{} remote {} read the event {} of lane {} at seq {} but no put_value with that value was recorded before it; store operations of the lane: {:?}",
-                                ctx, ri, val, it.name, f.seq,
-                                entries1.iter().map(|e| (e.seq, &e.op)).collect::<Vec<_>>()
-                            ),
-                        );
+            } else {
+                let St::V(init_val) = &initial else { continue };
+                let mut hist: Vec<i64> = vec![*init_val];
+                for (_, e) in &ph.trace {
+                    if let PEv::Value { lane, v } = e {
+                        if *lane == it.trace_idx {
+                            hist.push(*v);
+                        }
                     }
-                    if let Some(i) = hist.iter().position(|x| *x == val) {
+                }
+                if pi == 0 && St::V(*hist.last().unwrap()) != expected_after {
+                    lost_tail = true;
+                }
+                let mut seen_max = 0usize;
+                for (ri, frames) in ph.remotes.iter().enumerate() {
+                    for f in frames.iter().filter(|f| f.lane == it.name) {
+                        let FrameKind::Event(body) = &f.kind else { continue };
+                        if pi == 0 {
+                            persistent_event_frames += 1;
+                        }
+                        let Some(val) = parse_i64(body) else {
+                            continue; // not a value of the lane: C01/C04 territory
+                        };
+                        let Some(i) = hist.iter().position(|x| *x == val) else {
+                            continue; // not a value the lane held: C01 territory
+                        };
+                        // the state implied by the store log strictly before the read must be at least as
+                        // new as the frame's state (index 0 = the state the incarnation started with,
+                        // implied by the store as it was)
+                        let implied = entries
+                            .iter()
+                            .filter(|e| e.applied && e.seq < f.seq)
+                            .filter_map(|e| match &e.op {
+                                TOp::Put(x) => hist.iter().position(|h| h == x),
+                                _ => None,
+                            })
+                            .max()
+                            .unwrap_or(0);
+                        if implied < i {
+                            v.fail(
+                                "order:value-frame-before-store",
+                                format!(
+                                    "{} remote {} read the event {} (history index {}) of lane {} at seq {} but the newest state handed to the store before that has history index {}; store operations of the lane in this incarnation: {:?}; history {:?}",
+                                    ctx, ri, val, i, it.name, f.seq, implied, show_entries(), hist
+                                ),
+                            );
+                        }
                         seen_max = seen_max.max(i);
                     }
                 }
-            }
-            if let Some(St::V(w)) = &restored {
-                if let Some(j) = hist.iter().rposition(|x| x == w) {
-                    if j < seen_max {
-                        v.fail(
-                            "restart:older-than-seen:value-lane",
-                            format!(
-                                "{} lane {}: restored value {} (history index {}) is older than index {} which a subscriber had already read; history: {:?}",
-                                ctx, it.name, w, j, seen_max, hist
-                            ),
-                        );
+                if let Some(St::V(w)) = &restored {
+                    if let Some(j) = hist.iter().rposition(|x| x == w) {
+                        if j < seen_max {
+                            v.fail(
+                                "restart:older-than-seen:value-lane",
+                                format!(
+                                    "{} lane {}: the value restored by the next incarnation, {} (history index {}), is older than index {} which a subscriber had already read; history: {:?}",
+                                    ctx, it.name, w, j, seen_max, hist
+                                ),
+                            );
+                        }
                     }
                 }
             }
         }
     }
 
-    let mutations = obs
-        .trace1
+    let first = &obs.phases[0];
+    let mutations = first
+        .trace
         .iter()
         .filter(|(_, e)| matches!(e, PEv::Value { .. } | PEv::Update { .. } | PEv::Remove { .. } | PEv::Clear { .. } | PEv::Did(_)))
         .count();
@@ -1091,21 +1226,48 @@ fn judge(obs: &RunObs, v: &mut Verdict) -> RunStats {
     stats.classes.push(cut_class(obs));
     if lost_tail {
         stats.classes.push("lane-newer-than-store-at-cut");
+        if obs.completed && matches!(obs.cut, Cut::Stop(_) | Cut::Timeout) {
+            stats.classes.push("lane-newer-than-store-after-clean-stop/timeout");
+            // not part of the property (only what was handed over must come back); C05_FLAG_LOST_TAIL=1
+            // turns it into a failure so that a minimal example can be obtained by shrinking
+            if std::env::var("C05_FLAG_LOST_TAIL").is_ok() {
+                v.fail(
+                    "observation:clean-stop-lost-tail",
+                    format!("[cut {:?}] after a completed clean stop / timeout a persistent lane held a newer state than the store", obs.cut),
+                );
+            }
+        }
     }
-    if matches!(obs.cut, Cut::Stop | Cut::Timeout) && !obs.completed {
+    if matches!(obs.cut, Cut::Stop(_) | Cut::Timeout) && !obs.completed {
         stats.classes.push("stop/timeout-did-not-complete");
     }
-    if obs.remotes1.len() >= 2 {
+    if first.remotes.len() >= 2 {
         stats.classes.push("remotes>=2");
     }
+    let log1 = &obs.log[..first.log_end];
     if log1.iter().any(|e| matches!(e.call, Call::RemoveMap(..))) {
         stats.classes.push("remove-persisted");
     }
     if log1.iter().any(|e| matches!(e.call, Call::ClearMap(..))) {
         stats.classes.push("clear-persisted");
     }
-    if obs.trace1.iter().any(|(_, e)| matches!(e, PEv::ProgBegin { .. })) {
+    if first.trace.iter().any(|(_, e)| matches!(e, PEv::ProgBegin { .. })) {
         stats.classes.push("handler-programs");
+    }
+    if first.trace.iter().any(|(_, e)| matches!(e, PEv::Did(Act::Fail))) {
+        stats.classes.push("handler-failed-the-agent");
+    }
+    if first.trace.iter().any(|(_, e)| matches!(e, PEv::Did(Act::Abort))) {
+        stats.classes.push("handler-aborted-with-error");
+    }
+    if first.trace.iter().any(|(_, e)| matches!(e, PEv::Did(Act::StopSelf))) {
+        stats.classes.push("handler-stopped-the-agent");
+    }
+    if obs.phases.len() == 3 {
+        stats.classes.push("second-history+third-incarnation");
+        if obs.log[obs.phases[0].log_end..obs.phases[1].log_end].iter().any(|e| e.call.is_mutation() && matches!(e.call, Call::RemoveMap(..) | Call::ClearMap(..))) {
+            stats.classes.push("second-history-removes/clears-restored-state");
+        }
     }
     stats
 }
@@ -1131,15 +1293,19 @@ fn check(case: &Case) -> Verdict {
     let reference = execute(case, Cut::End);
     account(&reference, &mut v, &mut bulk);
     let (n_store, n_frames, n_polls) = reference.counts;
+    let n_ops = case.ops.len();
     let mut cuts: Vec<Cut> = vec![];
     match &case.plan {
         CutPlan::Sampled(sels) => {
             for s in sels {
                 cuts.push(match s {
-                    CutSel::StoreCall { i, after } if n_store > 0 => Cut::StoreCall { n: pick_index(*i, n_store as usize) as u64, after: *after },
+                    CutSel::StoreCall { i, after } if n_store > 0 => {
+                        Cut::StoreCall { n: pick_index(*i, n_store as usize) as u64, after: *after }
+                    }
+                    CutSel::StoreError { i } if n_store > 0 => Cut::StoreError(pick_index(*i, n_store as usize) as u64),
                     CutSel::Poll { i } if n_polls > 0 => Cut::Poll(pick_index(*i, n_polls as usize) as u64),
                     CutSel::Frame { i } if n_frames > 0 => Cut::Frame(pick_index(*i, n_frames)),
-                    CutSel::Stop => Cut::Stop,
+                    CutSel::Stop { i } => Cut::Stop(pick_index(*i, n_ops) + 1),
                     CutSel::Timeout => Cut::Timeout,
                     _ => continue,
                 });
@@ -1151,9 +1317,13 @@ fn check(case: &Case) -> Verdict {
             for n in 0..n_store + 2 {
                 cuts.push(Cut::StoreCall { n, after: false });
                 cuts.push(Cut::StoreCall { n, after: true });
+                cuts.push(Cut::StoreError(n));
             }
             for f in 0..n_frames + 2 {
                 cuts.push(Cut::Frame(f));
+            }
+            for j in 1..=n_ops {
+                cuts.push(Cut::Stop(j));
             }
             let step = (n_polls / 12).max(1);
             let mut p = 0;
@@ -1161,11 +1331,16 @@ fn check(case: &Case) -> Verdict {
                 cuts.push(Cut::Poll(p));
                 p += step;
             }
-            cuts.push(Cut::Stop);
             cuts.push(Cut::Timeout);
         }
     }
+    let mut done: BTreeSet<Cut> = BTreeSet::new();
+    done.insert(Cut::End);
     for cut in cuts {
+        // distinct cut points only: an evaluation is one distinct (history, cut) pair
+        if !done.insert(cut) {
+            continue;
+        }
         let obs = execute(case, cut);
         account(&obs, &mut v, &mut bulk);
         vcommon::tick();
@@ -1184,25 +1359,25 @@ fn main() {
          stores, schedule ops: remote writes/reads <=n bytes, poll system <=k, settle, advance) with 1-4 remotes, channel capacities \
          1..4096 bytes, generated lane buffers / coop budget / select seed; each history is executed once per cut point: panic inside \
          mutating store call #n (before or after it took effect), drop after system poll #p, drop right after remote frame #f was read, \
-         clean stop, inactivity timeout, kill at quiescence; then restart on the surviving store. One evaluation = one (history, cut) \
-         execution incl. restart. Non-trivial = at the cut >=1 store operation had been applied, >=1 event frame of a persistent lane \
-         had been read by a remote, and the history made >=3 mutations. quick: sampled cut points per history; thorough \
-         (level fault_enumeration): every store-call cut (both fault modes) and every frame cut of every history, a spread of poll cuts, \
-         stop and timeout.",
+         clean stop after op #j, inactivity timeout, kill at quiescence; then restart on the surviving store (half of the histories \
+         continue with a second history on the restored state, a kill at quiescence and a third incarnation). One evaluation = one \
+         (history, cut) execution incl. restart(s). Non-trivial = at the cut >=1 store operation had been applied, >=1 event frame of a \
+         persistent lane had been read by a remote, and the history made >=3 mutations. quick: 6 sampled cut points per history plus a \
+         small batch with all cuts; thorough (level fault_enumeration): every store-call cut (both fault modes), every frame cut and a \
+         clean stop after every op of every history of the all-cuts batch, a spread of poll cuts, and the timeout.",
     );
-    ctx.assume("the agent-side on_event/on_update/on_remove/on_clear trace is the ground truth for the order of a lane's states (used only by the never-older rule)");
+    ctx.assume("the agent-side on_event/on_update/on_remove/on_clear trace is the ground truth for the order of a lane's states (ranks value-lane states in the order rule, and all states in the never-older rule)");
     ctx.assume("the harness store applies an operation atomically; a fault injected before the operation is applied counts as not handed over for the restart fold, one injected after as handed over");
     ctx.assume("single-threaded harness-owned schedule: cut points are poll boundaries, store calls and frame reads, not arbitrary instructions");
-    let thorough = ctx.tier == vcommon::Tier::Thorough;
-    if thorough {
+    if ctx.tier == vcommon::Tier::Thorough {
         ctx.level("fault_enumeration");
     }
     let max_ops = ctx.pick(40, 70);
-    let n_sampled = ctx.pick(6_000, 60_000);
+    // development override: C05_SCALE=<percent> scales the case counts
+    let scale: u64 = std::env::var("C05_SCALE").ok().and_then(|s| s.parse().ok()).unwrap_or(100);
+    let n_sampled = (ctx.pick(80_000u64, 1_200_000) * scale / 100).max(16);
     ctx.prop("sampled-cuts", n_sampled, move || arb_case(max_ops, 6, false), check);
-    if thorough || std::env::var("VERIF_ONLY").ok().as_deref() == Some("all-cuts") || ctx.is_replay() {
-        let n_all = ctx.pick(200, 3_000);
-        ctx.prop("all-cuts", n_all, move || arb_case(max_ops, 0, true), check);
-    }
+    let n_all = (ctx.pick(600u64, 60_000) * scale / 100).max(16);
+    ctx.prop("all-cuts", n_all, move || arb_case(max_ops, 0, true), check);
     ctx.finish();
 }
